@@ -364,7 +364,9 @@ def element_names(case):
 
 NICE = [0.25, 0.5, 1.0, 1.5, 2.0, 3.0, 4.0, 0.1, 0.3, 5.0, 8.0, -1.0, -2.0, -0.5, 0.75, 10.0]
 RUNSPECS = [("0", "1"), ("0", "0.5"), ("1", "0.25"), ("0", "0.125"), ("0", "0.1"), ("1", "0.2"), ("0", "0.05"),
-            ("2.5", "0.5"), ("0.5", "0.1"), ("10", "1"), ("0", "0.25"), ("1", "1"), ("100.1", "0.1"), ("-1", "0.5")]
+            ("2.5", "0.5"), ("0.5", "0.1"), ("10", "1"), ("0", "0.25"), ("1", "1"), ("100.1", "0.1"), ("-1", "0.5"),
+            # start times with more decimals than dt
+            ("0.5", "1"), ("0.25", "0.5"), ("2.5", "1"), ("0.125", "0.25"), ("1.75", "0.5"), ("0.05", "0.1")]
 BINARY_DT = ("1", "0.5", "0.25", "0.125")
 
 
